@@ -36,5 +36,5 @@ prose = open(R + '/tools/design10_prose.md').read()
 na = "\n".join("* **%s** — %s" % (e['property_id'], e['reason']) for e in m.get('not_applicable', []))
 sec = prose.replace('{TABLE}', table).replace('{TOTAL}', str(total)).replace('{NCHECKS}', str(len(m['checks']))) \
            .replace('{FIXED}', fx).replace('{KNOWN}', kn).replace('{SEEDS}', "\n".join(seed)).replace('{NSEEDS}', str(len(seed))) \
-           .replace('{NOTAPPLICABLE}', na)
+           .replace('{NOTAPPLICABLE}', na).replace('{HARMLESS}', open(R + '/tools/harmless_result.md').read().strip())
 open(p, "w").write(s.rstrip("\n") + "\n" + marker + sec)
